@@ -1,6 +1,7 @@
 \* the chain service behind the receive paths: genuine block a with 1..12 transactions; every altered copy a relay can make
 \* of it under a's identifier (emptied / dropped / swapped / substituted / appended body, every body with the genuine root
-\* by the merkle padding rule, altered header) in every order of <= 3 arrivals; PadVariants cross-checked by brute force
+\* by the merkle padding rule, altered header) in every order of <= 3 arrivals; PadVariants cross-checked by brute force;
+\* design check and generation in one run (84 states): every transition is printed for the replay on real nodes
 SPECIFICATION Spec
 CONSTANTS
   Ids <- I3
@@ -17,4 +18,5 @@ CONSTANTS
 VIEW mcView
 INVARIANTS TypeOK AcceptBinding PaddedAreTheCollisions ForgedNeverConnected NoPoison
 PROPERTIES GenuineConnected ForgedNoTraceCs
+ACTION_CONSTRAINT GenLog
 CHECK_DEADLOCK FALSE
